@@ -301,7 +301,8 @@ Section Batch.
     good_proj A dk0 p -> batch_ok dk0 dk evs ->
     (forall f k t, In (f, k) evs -> aget dk f = Some t -> empty_hit_p A fx p f t = false) ->
     let r := handle_events A fx dk p evs in
-    (nostale_p A (fst r) -> good_proj A dk (fst r)) /\ (snd r = false -> forall g, errs_of A (fst r) g = errs_of A p g).
+    (nostale_p A (fst r) \/ idx_sub A (fst r) -> good_proj A dk (fst r)) /\
+    (snd r = false -> forall g, errs_of A (fst r) g = errs_of A p g).
   Proof.
     intros G B Hemp. cbn zeta. rewrite handle_events_eq. cbn zeta.
     assert (Hs0 : ssorted (p_files p)) by (rewrite (gp_files _ _ _ G); apply dfiles_sorted).
